@@ -78,7 +78,10 @@ func c06Base(seed int64, long bool) *c06Stream {
 	return st
 }
 
-// fault: kind 'd' duplicate packet i (copy inserted right after it), 'x' delete packet i.
+// fault: kind 'd' duplicate packet i (copy inserted right after it), 'D' duplicate packet i with
+// the copy inserted after the following packet when that one belongs to another PID (the
+// duplicate is still consecutive WITHIN its PID, as ISO 13818-1 2.4.3.3 means it), 'x' delete
+// packet i.
 type fault struct {
 	Kind byte
 	At   int
@@ -89,22 +92,30 @@ func (f fault) String() string { return fmt.Sprintf("%c%d", f.Kind, f.At) }
 func applyFaults(st *c06Stream, fs []fault) []*ref.Pkt {
 	del := map[int]bool{}
 	dup := map[int]int{}
+	late := map[int][]*ref.Pkt{} // copies to insert after packet index
 	for _, f := range fs {
-		if f.Kind == 'x' {
+		switch f.Kind {
+		case 'x':
 			del[f.At] = true
-		} else {
+		case 'D':
+			if f.At+1 < len(st.Pkts) && st.Pkts[f.At+1].PID != st.Pkts[f.At].PID {
+				late[f.At+1] = append(late[f.At+1], st.Pkts[f.At])
+			} else {
+				dup[f.At]++
+			}
+		default:
 			dup[f.At]++
 		}
 	}
 	var out []*ref.Pkt
 	for i, p := range st.Pkts {
-		if del[i] {
-			continue
-		}
-		out = append(out, p)
-		for k := 0; k < dup[i]; k++ {
+		if !del[i] {
 			out = append(out, p)
+			for k := 0; k < dup[i]; k++ {
+				out = append(out, p)
+			}
 		}
+		out = append(out, late[i]...)
 	}
 	return out
 }
@@ -160,7 +171,7 @@ func checkFaulted(st *c06Stream, clean map[uint16][]string, fs []fault) (sig, ms
 	for _, f := range fs {
 		pid := st.Pkts[f.At].PID
 		x := get(pid)
-		if f.Kind == 'd' {
+		if f.Kind == 'd' || f.Kind == 'D' {
 			if !del[f.At] {
 				x.dups++
 			}
@@ -297,7 +308,7 @@ func checkC06(c *mc.Ctx) {
 		n := len(st.Pkts)
 		var sets [][]fault
 		for i := 0; i < n; i++ {
-			sets = append(sets, []fault{{'d', i}}, []fault{{'x', i}}, []fault{{'d', i}, {'d', i}})
+			sets = append(sets, []fault{{'d', i}}, []fault{{'x', i}}, []fault{{'d', i}, {'d', i}}, []fault{{'D', i}})
 			for l := 2; l <= 3 && i+l <= n; l++ {
 				var b []fault
 				for k := 0; k < l; k++ {
@@ -325,8 +336,8 @@ func checkC06(c *mc.Ctx) {
 		if !long || c.Thorough() {
 			for i := 0; i < n; i++ {
 				for j := i + 1; j < n; j++ {
-					for _, a := range []byte{'d', 'x'} {
-						for _, b := range []byte{'d', 'x'} {
+					for _, a := range []byte{'d', 'x', 'D'} {
+						for _, b := range []byte{'d', 'x', 'D'} {
 							sets = append(sets, []fault{{a, i}, {b, j}})
 						}
 					}
@@ -342,7 +353,7 @@ func checkC06(c *mc.Ctx) {
 			}
 			c.Ev.Distinct(st.Name + fmt.Sprint(fs))
 			for _, f := range fs {
-				if f.Kind == 'd' {
+				if f.Kind == 'd' || f.Kind == 'D' {
 					c.Ev.Class("duplicate-inserted", 1)
 				} else {
 					c.Ev.Class("packet-deleted", 1)
